@@ -10,6 +10,7 @@ from __future__ import annotations
 import itertools
 
 from .. import api, engine
+from .. import histories as H
 
 ID = "C17"
 LEVEL = "exploration"
@@ -146,10 +147,14 @@ def plan(tier):
     for f in [x[0] for x in FAULTS] + ["missing-mode"]:
         for loc in LOCATIONS:
             shards.append({"fault": f, "location": loc})
+    shards += H.plan_shards(['faults'])
     return shards
 
 
 def cases(shard, tier):
+    if shard.get("kind") == "call-histories":
+        yield from H.cases_of(shard)
+        return
     maxp, maxs = (2, 1) if tier == "quick" else (3, 2)
     for p, s in contexts(maxp, maxs):
         for eol in ("lf", "crlf", "cr", "mixed"):
@@ -161,6 +166,8 @@ def cases(shard, tier):
 
 
 def check_case(case, R: engine.Acc):
+    if case.get("kind") == "call-history":
+        return H.check_history(case["label"], R, H.project_error_location, 'attribution-depends-on-earlier-calls', 'errors and @print output carry the path and line of the file read in THIS call')
     files, root, lookups, fpath, fl, lfl, ref_prints = build(case)
     fault = case["fault"]
     o = api.read_namespace_tree({k: v.encode("utf8", "surrogateescape") for k, v in files.items()}, root, lookups)
